@@ -292,6 +292,27 @@ func slice(i *interpreter, x, lo, hi, max value) value {
 		Cap = cap(a)
 	}
 
+	// symbolic bounds: decide validity first so that the out-of-range class is
+	// one path, then enumerate only the in-range values
+	if isSym(lo) || isSym(hi) || isSym(max) {
+		tt := func(v value, def int) *smt.Term {
+			if v == nil {
+				return smt.Const(64, uint64(def))
+			}
+			t := toTerm(v)
+			if t.W < 64 {
+				t = smt.Sext(t, 64)
+			}
+			return t
+		}
+		lt, ht, mt := tt(lo, 0), tt(hi, Len), tt(max, Cap)
+		le := func(a, b *smt.Term) *smt.Term { return smt.Bin(smt.OpSle, a, b) }
+		valid := smt.And(smt.And(le(smt.Const(64, 0), lt), le(lt, ht)), smt.And(le(ht, mt), le(mt, smt.Const(64, uint64(Cap)))))
+		if !i.path.decide(valid) {
+			panic(runtimeError("slice bounds out of range [symbolic]"))
+		}
+	}
+
 	l := int64(0)
 	if lo != nil {
 		l = i.concInt(lo, true)
